@@ -1,3 +1,3 @@
 SPECIFICATION TraceSpec
-CONSTANTS Lenient = FALSE Alphabet = {} MaxLen = 0
+CONSTANTS ArrBE = FALSE Lenient = FALSE Alphabet = {} MaxLen = 0
 CONSTANT Formats <- TrFormats
